@@ -146,17 +146,45 @@ def norm_term(t):
         if isinstance(inner, tuple) and inner and inner[0] == "call" and inner[1].name in ("from_raw_parts", "from_raw_parts_mut") \
                 and len(inner[2]) == 2:
             return norm_term(inner[2][1])
+    if k == "call" and t[1].name in ("unwrap_or_default", "unwrap_or") and t[2] and not t[1].local:
+        # `checked_slice(p, n).unwrap_or_default()` with checked_slice = None for NULL / n == 0, Some(from_raw_parts(p, n)) otherwise
+        alts = [strip_box(v) for v in leaves(strip_box(t[2][0]))]
+        somes = [strip_box(v[4][0]) for v in alts if isinstance(v, tuple) and v and v[0] == "agg" and v[3] == "Some" and len(v[4]) == 1]
+        nones = [v for v in alts if isinstance(v, tuple) and v and v[0] == "agg" and v[3] == "None"]
+        if somes and nones and len(somes) + len(nones) == len(alts) and \
+                all(isinstance(v, tuple) and v and v[0] == "call" and v[1].name in ("from_raw_parts", "from_raw_parts_mut") and v[:3] == somes[0][:3] for v in somes) and \
+                (t[1].name == "unwrap_or_default" or _is_empty_slice(t[2][1])):
+            return norm_term(somes[0])
     if k == "call":
         return (t[0], t[1], tuple(norm_term(a) for a in t[2])) + tuple(t[3:])
     if k == "field":
         return ("field", norm_term(t[1])) + tuple(t[2:])
     if k == "agg":
         return t[:4] + (tuple(norm_term(a) for a in t[4]),) + tuple(t[5:])
+    if k in ("gamma", "phi"):
+        # a NULL- / zero-length-safe slice: `if p.is_null() || n == 0 { &[] } else { from_raw_parts(p, n) }` is the slice
+        # from_raw_parts(p, n) for every argument pair the C side may legally pass (n = 0 gives the empty slice either way)
+        alts = [strip_box(v) for v in leaves(t)]
+        full = [v for v in alts if not _is_empty_slice(v)]
+        if len(full) < len(alts) and full and all(isinstance(v, tuple) and v and v[0] == "call" and
+                                                  v[1].name in ("from_raw_parts", "from_raw_parts_mut") and v[:3] == full[0][:3] for v in full):
+            return norm_term(full[0])
     if k == "gamma":
         return ("gamma", t[1], tuple((l, norm_term(v)) for l, v in t[2])) + tuple(t[3:])
     if k == "phi":
         return ("phi", t[1], tuple((p, norm_term(v)) for p, v in t[2]))
     return t
+
+
+def _is_empty_slice(v):
+    v = strip(v)
+    while isinstance(v, tuple) and v and v[0] in ("ref", "deref", "cast"):
+        v = strip(v[2] if v[0] == "cast" else v[1])
+    if isinstance(v, tuple) and v and v[0] == "agg" and not v[4]:
+        return True
+    if isinstance(v, tuple) and v and v[0] == "const" and show(v).strip("&") in ("[]", "const []"):
+        return True
+    return show(v).strip("&") == "[]"
 
 
 def leaves(t):
@@ -274,6 +302,8 @@ def run(prog):
                 errs.append("%sexpected exactly one closure, found %d" % ("?" if not kids else "", len(kids)))
             else:
                 e = match(spec["closure"], norm_term(kids[0].terms.ret))
+                if e:
+                    e = match(spec["closure"], norm(kids[0].terms.ret))       # through private plumbing helpers
                 if e:
                     errs.append("closure: " + e)
         if spec.get("bounded_copy"):
